@@ -35,7 +35,28 @@ def make_scenarios(ctx, count, nops):
             s.add("AI 1")
             s.add("TA 1 %s 1 1" % G.rand_mac(rng).hex())
         last_seq = {}
-        for _ in range(nops):
+        full_at = rng.randrange(nops) if rng.random() < 0.3 else -1
+        for opno in range(nops):
+            if opno == full_at:
+                # a table that is full and in which every session is complete, then a mapper that is not in it
+                s.add("TC 0")
+                ops.append(("TC",))
+                for k in keys[:16]:
+                    sq = rng.getrandbits(16)
+                    last_seq[k] = sq
+                    s.add("TA 0 %s %d %d" % (k[0].hex(), k[1], sq))
+                    ops.append(("TA", k, sq))
+                for k in keys[:16]:
+                    s.add("TM 0 %s %d 1" % (k[0].hex(), k[1]))
+                    ops.append(("TM", k, 1))
+                s.add("TQ 0")
+                ops.append(("TQ",))
+                for k in keys[16:18]:
+                    sq = rng.getrandbits(16)
+                    s.add("TA 0 %s %d %d" % (k[0].hex(), k[1], sq))
+                    ops.append(("TA", k, sq))
+                    s.add("TQ 0")
+                    ops.append(("TQ",))
             r = rng.random()
             k = rng.choice(keys)
             p_add = {"fill": 0.5, "churn": 0.35, "expiry": 0.3}[style]
@@ -156,6 +177,8 @@ def monitor(scn, sobj, rep, sf, ck):
                     model[k] = dict(seq=seq, complete=0, last=now_s, last_ms=now_ms, slot=r)
             else:
                 seen.add("full-reject")
+                if all(m["complete"] for m in model.values()):
+                    seen.add("full-reject-while-all-complete")
                 if r != -1:
                     bad("add-to-full-table-succeeds", "returned slot %s with 16 live sessions" % r, i)
                 if sorted(ents.values()) != sorted(prev_ents.values()):
@@ -269,6 +292,6 @@ def run(ctx):
     scns = make_scenarios(ctx, ctx.n(2000, 60000), 200)
     run_monitored(ctx, binary, scns, monitor, tag="tbl")
     c = rep.counters
-    for name in ("full-reject", "refresh", "refresh-with-unchanged-sequence-number", "expiry-with-survivors", "clear", "remove", "allc=1/nonempty", "allc=0/nonempty", "allc=1/empty"):
+    for name in ("full-reject", "full-reject-while-all-complete", "refresh", "refresh-with-unchanged-sequence-number", "expiry-with-survivors", "clear", "remove", "allc=1/nonempty", "allc=0/nonempty", "allc=1/empty"):
         rep.need(name, c.get("reach:" + name, 0), 20)
     rep.need("ticks_beside_a_second_interface", c.get("ticks_beside_a_second_interface", 0), 1000)
